@@ -344,7 +344,7 @@ def run_shard(spec, emit):
     factory = Factory()
     n = 250 if tier == "quick" else 4000
     scratch = os.environ.get("VERIF_SCRATCH") or tempfile.mkdtemp(prefix="verif-c16-")
-    deadline = time.monotonic() + (75 if tier == "quick" else 2400)
+    deadline = time.monotonic() + (75 if tier == "quick" else 300)
     samples = 0
     for idx in range(n):
         if time.monotonic() > deadline:
